@@ -53,6 +53,9 @@ def execute(req):
         seams.SIM.reset(req["segment"].get("sim", {}))
         mod = get_check(req["check"])
         res = mod.run_segment(req["segment"])
+        if seams.SIM.budget_exceeded:
+            return {"ok": False, "harness": "discard",
+                    "detail": f"workload bound exceeded after {seams.SIM.solve_index} solves"}
         return {"ok": True, "result": res}
     except BaseException:
         return {"ok": False, "harness": "error", "detail": traceback.format_exc()[-6000:]}
